@@ -35,7 +35,6 @@ import (
 	"k8s.io/apimachinery/pkg/util/intstr"
 	"k8s.io/client-go/informers"
 	kubefake "k8s.io/client-go/kubernetes/fake"
-	clientgoscheme "k8s.io/client-go/kubernetes/scheme"
 	"k8s.io/client-go/tools/events"
 	"k8s.io/client-go/util/workqueue"
 	"k8s.io/utils/clock"
@@ -149,8 +148,15 @@ type c16aWorld struct {
 	arb      *arbitratorImpl
 	h        handler.EventHandler
 	q        workqueue.TypedRateLimitingInterface[reconcile.Request]
-	rec      *vu.Recorder
+	out      *[]vu.Ev // events of this segment, in order (segments run in parallel; flushed in order)
 }
+
+var c16aScheme = func() *runtime.Scheme {
+	s := runtime.NewScheme()
+	_ = v1alpha1.AddToScheme(s)
+	_ = corev1.AddToScheme(s)
+	return s
+}()
 
 var (
 	c16aHandleOnce sync.Once
@@ -210,16 +216,14 @@ func c16aIntOrPct(c c16aIOP) *intstr.IntOrString {
 	return nil
 }
 
-func c16aNewWorld(rec *vu.Recorder, cfg c16aOp) *c16aWorld {
-	w := &c16aWorld{cfg: cfg, rec: rec}
+func c16aNewWorld(out *[]vu.Ev, cfg c16aOp) *c16aWorld {
+	w := &c16aWorld{cfg: cfg, out: out}
 	for name := range cfg.Pods {
 		w.podNames = append(w.podNames, name)
 	}
 	sort.Strings(w.podNames)
 
-	scheme := runtime.NewScheme()
-	_ = v1alpha1.AddToScheme(scheme)
-	_ = clientgoscheme.AddToScheme(scheme)
+	scheme := c16aScheme // pods and migration jobs only: the fake client derives a REST mapper from the whole scheme for every instance
 	idx := newFieldIndexFakeClient(nil).m // the package fixture's index extractors (same as fieldindex.RegisterFieldIndexes)
 	w.client = fake.NewClientBuilder().WithScheme(scheme).
 		WithStatusSubresource(&v1alpha1.PodMigrationJob{}).
@@ -308,8 +312,7 @@ func c16aNewWorld(rec *vu.Recorder, cfg c16aOp) *c16aWorld {
 	w.h = NewHandler(w.arb, w.client)
 	w.q = workqueue.NewTypedRateLimitingQueue[reconcile.Request](workqueue.NewTypedItemExponentialFailureRateLimiter[reconcile.Request](time.Millisecond, time.Second))
 
-	ev := vu.Ev{"pods": cfg.Pods, "wls": cfg.Wls, "lim": cfg.Lim, "ready0": cfg.Ready0}
-	rec.Reset(ev)
+	*out = append(*out, vu.Ev{"op": "reset", "pods": cfg.Pods, "wls": cfg.Wls, "lim": cfg.Lim, "ready0": cfg.Ready0})
 	return w
 }
 
@@ -335,6 +338,19 @@ func (w *c16aWorld) getJob(name string) *v1alpha1.PodMigrationJob {
 		panic(err)
 	}
 	return j
+}
+
+// all jobs in the API server, by name, in name order
+func (w *c16aWorld) listJobs() map[string]*v1alpha1.PodMigrationJob {
+	list := &v1alpha1.PodMigrationJobList{}
+	if err := w.client.List(context.TODO(), list); err != nil {
+		panic(err)
+	}
+	out := map[string]*v1alpha1.PodMigrationJob{}
+	for i := range list.Items {
+		out[list.Items[i].Name] = &list.Items[i]
+	}
+	return out
 }
 
 type c16aJobObs struct {
@@ -440,14 +456,27 @@ func (w *c16aWorld) exec(o c16aOp) vu.Ev {
 			ev["pod"], ev["val"] = o.Pod, o.Val
 			p := w.getPod(o.Pod)
 			c16aSetReady(p, o.Val)
-			if err := w.client.Update(ctx, p); err != nil {
+			if err := w.client.Status().Update(ctx, p); err != nil { // the fake API server keeps pod status behind the status subresource
 				panic(err)
 			}
 		case "filter":
 			ev["pod"] = o.Pod
 			ev["result"] = w.arb.Filter(w.getPod(o.Pod))
 		case "round":
+			before := w.listJobs()
 			w.arb.doOnceArbitrate()
+			// the informer reports the arbitrator's own writes back to the real event handler
+			after := w.listJobs()
+			names := make([]string, 0, len(after))
+			for n := range after {
+				names = append(names, n)
+			}
+			sort.Strings(names)
+			for _, n := range names {
+				if old, ok := before[n]; ok && old.ResourceVersion != after[n].ResourceVersion {
+					w.h.Update(ctx, event.UpdateEvent{ObjectOld: old, ObjectNew: after[n]}, w.q)
+				}
+			}
 		default:
 			panic("unknown op " + o.Op)
 		}
@@ -461,7 +490,7 @@ func (w *c16aWorld) exec(o c16aOp) vu.Ev {
 	if panicked {
 		ev = vu.Ev{"op": "panic", "during": o.Op, "msg": msg}
 	}
-	w.rec.Emit(ev)
+	*w.out = append(*w.out, ev)
 	return ev
 }
 
@@ -557,7 +586,6 @@ type c16aDriver struct {
 	rng    *rand.Rand
 	nextJ  int
 	usedTs map[int]bool
-	last   vu.Ev // last recorded event (its obs steers generation; it never judges)
 }
 
 func (d *c16aDriver) jobs() map[string]c16aJobObs {
@@ -615,8 +643,8 @@ func (d *c16aDriver) freePods() []string {
 
 // online random driver: several arbitration rounds with jobs arriving in bursts, starting, completing,
 // failing, being deleted, and pods changing readiness in between
-func c16aRandomRun(rec *vu.Recorder, rng *rand.Rand, steps int, maxJobs int) {
-	d := &c16aDriver{w: c16aNewWorld(rec, c16aRandomCfg(rng)), rng: rng, usedTs: map[int]bool{}}
+func c16aRandomRun(out *[]vu.Ev, rng *rand.Rand, steps int, maxJobs int) {
+	d := &c16aDriver{w: c16aNewWorld(out, c16aRandomCfg(rng)), rng: rng, usedTs: map[int]bool{}}
 	pick := func(xs []string) string { return xs[rng.Intn(len(xs))] }
 	for i := 0; i < steps; i++ {
 		jobs := d.jobs()
@@ -678,7 +706,7 @@ func c16aRandomRun(rec *vu.Recorder, rng *rand.Rand, steps int, maxJobs int) {
 
 // enumerated part: every combination of the three counters in {0,1,2} with a set of per-workload settings,
 // on a fixed cluster, all pods getting a job at once; three rounds with jobs completing in between
-func c16aEnumerated(rec *vu.Recorder, rng *rand.Rand) {
+func c16aEnumerated() []func(out *[]vu.Ev, rng *rand.Rand) {
 	pods := map[string]c16aPod{
 		"p1": {Node: "n1", Ns: "s1", Wl: "w1", Evictable: true}, "p2": {Node: "n1", Ns: "s1", Wl: "w1", Evictable: true},
 		"p3": {Node: "n2", Ns: "s1", Wl: "w1", Evictable: true}, "p4": {Node: "n2", Ns: "s1", Wl: "w1", Evictable: true},
@@ -691,45 +719,83 @@ func c16aEnumerated(rec *vu.Recorder, rng *rand.Rand) {
 	pct := func(v int) c16aIOP { return c16aIOP{Kind: "pct", V: v} }
 	wlSettings := [][2]c16aIOP{{none, none}, {abs(1), none}, {none, abs(1)}, {abs(1), abs(2)}, {abs(2), abs(1)}, {abs(2), abs(3)}, {pct(50), pct(50)}, {abs(3), pct(100)}}
 	names := []string{"p1", "p2", "p3", "p4", "p5", "p6", "p7", "p8"}
+	var segs []func(out *[]vu.Ev, rng *rand.Rand)
 	for _, ln := range []int{0, 1, 2} {
 		for _, ls := range []int{0, 1, 2} {
 			for _, lg := range []int{0, 1, 2} {
 				for wi, ws := range wlSettings {
-					ready := map[string]bool{}
-					for _, p := range names {
-						ready[p] = true
-					}
-					ready[names[rng.Intn(4)]] = rng.Intn(3) == 0 // sometimes one pod of w1 is unready
-					cfg := c16aOp{Op: "reset", Pods: pods, Wls: wls, Ready0: ready,
-						Lim: &c16aLim{Node: ln, Ns: ls, Global: lg, WlMig: ws[0], WlUnav: ws[1], SkipExpRep: wi%2 == 0, Gates: []string{}}}
-					d := &c16aDriver{w: c16aNewWorld(rec, cfg), rng: rng, usedTs: map[int]bool{}}
-					for _, i := range rng.Perm(len(names)) {
-						d.create(names[i], "Pending")
-					}
-					for r := 0; r < 3; r++ {
+					lim := &c16aLim{Node: ln, Ns: ls, Global: lg, WlMig: ws[0], WlUnav: ws[1], SkipExpRep: wi%2 == 0, Gates: []string{}}
+					segs = append(segs, func(out *[]vu.Ev, rng *rand.Rand) {
+						ready := map[string]bool{}
+						for _, p := range names {
+							ready[p] = true
+						}
+						ready[names[rng.Intn(4)]] = rng.Intn(3) != 0 // sometimes one pod of w1 is unready
+						cfg := c16aOp{Op: "reset", Pods: pods, Wls: wls, Ready0: ready, Lim: lim}
+						d := &c16aDriver{w: c16aNewWorld(out, cfg), rng: rng, usedTs: map[int]bool{}}
+						for _, i := range rng.Perm(len(names)) {
+							d.create(names[i], "Pending")
+						}
+						for r := 0; r < 3; r++ {
+							d.w.exec(c16aOp{Op: "round"})
+							for _, j := range c16aSortedKeys(d.jobs(), func(o c16aJobObs) bool { return o.Phase == "Pending" && o.Passed }) {
+								d.w.exec(c16aOp{Op: "jobStart", Job: j, Phase: "Running"})
+							}
+							if run := c16aSortedKeys(d.jobs(), func(o c16aJobObs) bool { return o.Phase == "Running" }); len(run) > 0 {
+								d.w.exec(c16aOp{Op: "jobFinish", Job: run[rng.Intn(len(run))], Phase: "Succeeded"})
+							}
+						}
 						d.w.exec(c16aOp{Op: "round"})
-						jobs := d.jobs()
-						for _, j := range c16aSortedKeys(jobs, func(o c16aJobObs) bool { return o.Phase == "Pending" && o.Passed }) {
-							d.w.exec(c16aOp{Op: "jobStart", Job: j, Phase: "Running"})
-						}
-						if run := c16aSortedKeys(d.jobs(), func(o c16aJobObs) bool { return o.Phase == "Running" }); len(run) > 0 {
-							d.w.exec(c16aOp{Op: "jobFinish", Job: run[rng.Intn(len(run))], Phase: "Succeeded"})
-						}
-					}
-					d.w.exec(c16aOp{Op: "round"})
+					})
 				}
 			}
 		}
 	}
+	return segs
 }
 
-func c16aReplay(rec *vu.Recorder, script []c16aOp) {
-	w := c16aNewWorld(rec, script[0])
+func c16aReplay(out *[]vu.Ev, script []c16aOp) {
+	w := c16aNewWorld(out, script[0])
 	for _, o := range script[1:] {
 		if o.Op == "panic" {
 			continue
 		}
 		w.exec(o)
+	}
+}
+
+// segments are independent (own fake API server, own arbitrator, own RNG derived from the seed and the
+// segment number): they run on a few goroutines and are written in order
+func c16aRunAll(rec *vu.Recorder, segs []func(out *[]vu.Ev, rng *rand.Rand)) {
+	workers := vu.EnvInt("VERIF_C16ARB_WORKERS", 6)
+	const batch = 240
+	for lo := 0; lo < len(segs); lo += batch {
+		hi := lo + batch
+		if hi > len(segs) {
+			hi = len(segs)
+		}
+		outs := make([][]vu.Ev, hi-lo)
+		var wg sync.WaitGroup
+		next := make(chan int)
+		for k := 0; k < workers; k++ {
+			wg.Add(1)
+			go func() {
+				defer wg.Done()
+				for i := range next {
+					segs[i](&outs[i-lo], vu.Rand(16010000+int64(i)))
+				}
+			}()
+		}
+		for i := lo; i < hi; i++ {
+			next <- i
+		}
+		close(next)
+		wg.Wait()
+		for _, evs := range outs {
+			for _, e := range evs {
+				rec.Emit(e)
+			}
+		}
 	}
 }
 
@@ -739,24 +805,31 @@ func TestVerifC16Arbitration(t *testing.T) {
 	}
 	rec := vu.NewRecorder("")
 	defer rec.Close()
+	if _, err := c16aGetHandle(); err != nil {
+		t.Fatal(err)
+	}
 	if path := vu.ReplayPath(); path != "" {
 		for _, raw := range vu.ReadScripts(path) {
 			var script []c16aOp
 			if err := json.Unmarshal(raw, &script); err != nil {
 				t.Fatal(err)
 			}
-			c16aReplay(rec, script)
+			var out []vu.Ev
+			c16aReplay(&out, script)
+			for _, e := range out {
+				rec.Emit(e)
+			}
 		}
 		return
 	}
-	rng := vu.Rand(1601)
-	c16aEnumerated(rec, rng)
-	n, steps, maxJobs := vu.EnvInt("VERIF_C16ARB_N", 1200), 26, 14
+	segs := c16aEnumerated()
+	n, steps, maxJobs := vu.EnvInt("VERIF_C16ARB_N", 700), 26, 14
 	if vu.Thorough() {
-		n, steps, maxJobs = vu.EnvInt("VERIF_C16ARB_N", 16000), 34, 18
+		n, steps, maxJobs = vu.EnvInt("VERIF_C16ARB_N", 12000), 34, 18
 	}
 	for i := 0; i < n; i++ {
-		c16aRandomRun(rec, rng, steps, maxJobs)
+		segs = append(segs, func(out *[]vu.Ev, rng *rand.Rand) { c16aRandomRun(out, rng, steps, maxJobs) })
 	}
+	c16aRunAll(rec, segs)
 	t.Logf("C16 arbitration: %d segments, %d events", rec.Segments(), rec.Events())
 }
